@@ -110,6 +110,7 @@ struct Conn {
     size_t read_cap = 0;
     Pending<void(error_code, std::size_t)>::ptr write_op;
     uint64_t write_event = 0;
+    bool write_blocked = false; size_t write_widx = 0, write_accepted = 0;   // state of the pending write_some
     uint64_t cur_group = 0;
 
     std::vector<ByteTrigger> triggers;
@@ -136,6 +137,7 @@ struct NetKnobs {
     ns_t lat_min = 0, lat_max = 2 * MS;          // one-way segment latency
     ns_t write_done_max = 1 * MS;                // completion delay of write_some
     double write_done_zero_p = 0.6;              // completes "immediately" (posted at once)
+    double write_block_p = 0.4;                  // a delayed write is blocked (nothing accepted yet) rather than accepted with a late handler
     double short_write_p = 0.1;
     double seg_split_p = 0.3;                    // split a write into several segments
     int chunk_mode = -1;                         // -1 mixed, 0 all-available, 1 single bytes, 2 random
@@ -192,6 +194,8 @@ private:
     void check_triggers(Conn& c, Dir d);
     size_t cut_at_trigger(Conn& c, Dir d, size_t off, size_t len);
     void fail_pending(Conn& c, error_code ec);
+    void finish_pending_write(Conn& c, error_code why);
+    size_t accept_write(Conn& c, size_t widx, std::string data);
     void end_read(Conn& c, ReadRec::End how, size_t n);
     void mark_dead(Conn& c, error_code ec);
     void apply(Conn& c, const ByteTrigger& t);
